@@ -329,6 +329,11 @@ pub enum ROp {
 pub struct RealCase {
     pub entries: u32,
     pub ops: Vec<ROp>,
+    /// submissions are not held back to what the completion ring has room for: completions beyond its size wait
+    /// in the kernel until an `io_uring_enter(fd, 0, 0, GETEVENTS)` moves them in (the documented way to collect
+    /// them without waiting), which the harness issues when the ring runs dry with completions still owed
+    #[serde(default)]
+    pub overflow: bool,
 }
 
 fn check_real(c: &RealCase) -> CaseResult {
@@ -349,7 +354,8 @@ fn check_real(c: &RealCase) -> CaseResult {
     let mut posted: VecDeque<u64> = VecDeque::new(); // completions the kernel owes us, in submission order
     let mut submitted_total = 0u64;
     let mut sq_was_full = false;
-    // every step is clamped so that the completion ring cannot overflow (overflow handling is the
+    let mut overflow_collected = false;
+    // (unless the case asks for overflow) every step is clamped so that the completion ring cannot overflow (overflow handling is the
     // kernel's business, not the wrapper's)
     let mut tail: Vec<ROp> = vec![ROp::Flush, ROp::Reap(255), ROp::Reap(255), ROp::Enter, ROp::Reap(255), ROp::Reap(255)];
     let ops: Vec<ROp> = c.ops.iter().copied().chain(tail.drain(..)).collect();
@@ -384,13 +390,15 @@ fn check_real(c: &RealCase) -> CaseResult {
             }
             ROp::Enter => {
                 // never more than the completion ring can take on top of what is not yet reaped
-                let room = cq_entries as usize - posted.len();
+                let room = if c.overflow { usize::MAX } else { (cq_entries as usize).saturating_sub(posted.len()) };
                 let n = (flushed as usize).min(room) as u32;
                 if n == 0 {
                     continue;
                 }
                 let r = match no_panic("io_uring_enter", || io_uring_enter(fd, n, 0, IoUringEnterFlags::empty()))? {
                     Ok(r) => r,
+                    // completions are waiting outside a full completion ring: the kernel wants them collected first
+                    Err(e) if c.overflow && e.code == Some(rusl::error::Errno::EBUSY) => continue,
                     Err(e) => crate::fail!("real|io_uring_enter|error", "step {step}: io_uring_enter(to_submit {n}) failed: {e}"),
                 };
                 ensure!(r == n as usize, "real|io_uring_enter|consumed-count", "step {step}: the kernel consumed {r} of the {n} submissions that were filled and flushed (setup_io_uring({}), {sq_entries} slots)", c.entries);
@@ -402,7 +410,19 @@ fn check_real(c: &RealCase) -> CaseResult {
             }
             ROp::Reap(k) => {
                 for _ in 0..k {
-                    let got = no_panic("IoUring::get_next_cqe", || ring.get_next_cqe().map(|e| (e.0.user_data, e.0.res)))?;
+                    let mut got = no_panic("IoUring::get_next_cqe", || ring.get_next_cqe().map(|e| (e.0.user_data, e.0.res)))?;
+                    if got.is_none() && c.overflow && posted.len() > 0 {
+                        // what did not fit the completion ring is moved in by a non-waiting GETEVENTS enter
+                        match no_panic("io_uring_enter", || io_uring_enter(fd, 0, 0, IoUringEnterFlags::IORING_ENTER_GETEVENTS))? {
+                            Ok(_) => {}
+                            Err(e) => crate::fail!("real|io_uring_enter|error", "step {step}: io_uring_enter(0, 0, GETEVENTS) failed: {e}"),
+                        }
+                        overflow_collected = true;
+                        got = no_panic("IoUring::get_next_cqe", || ring.get_next_cqe().map(|e| (e.0.user_data, e.0.res)))?;
+                        if got.is_none() {
+                            crate::fail!("real|get_next_cqe|none-while-pending|after io_uring_enter(0, 0, GETEVENTS)", "step {step}: {} completions are owed (next user_data {:#x}), the completion ring of {cq_entries} is empty and stays empty after io_uring_enter(fd, 0, 0, GETEVENTS): completions that did not fit the ring are never delivered", posted.len(), posted[0]);
+                        }
+                    }
                     match (got, posted.front().copied()) {
                         (None, None) => break,
                         (None, Some(ud)) => crate::fail!("real|get_next_cqe|none-while-pending", "step {step}: None although {} completions are pending (next user_data {ud:#x})", posted.len()),
@@ -429,6 +449,7 @@ fn check_real(c: &RealCase) -> CaseResult {
     rep.class_if(submitted_total > 3 * u64::from(sq_entries), "sq-slots-cycled-3x");
     rep.class_if(sq_was_full, "sq-full-none");
     rep.class_if(c.entries == 1, "ring-size-1");
+    rep.class_if(overflow_collected, "completions-beyond-the-ring-collected-by-a-GETEVENTS-enter");
     Ok(rep)
 }
 
@@ -439,7 +460,7 @@ pub fn real_case() -> impl Strategy<Value = RealCase> {
         3 => Just(ROp::Enter),
         3 => (1u8..=12).prop_map(ROp::Reap),
     ];
-    (prop_oneof![4 => 1u32..=9, 2 => 10u32..=40, 1 => Just(64u32), 1 => Just(100u32)], prop::collection::vec(op, 0..120)).prop_map(|(entries, ops)| RealCase { entries, ops })
+    (prop_oneof![4 => 1u32..=9, 2 => 10u32..=40, 1 => Just(64u32), 1 => Just(100u32)], prop::collection::vec(op, 0..120), prop::bool::weighted(0.3)).prop_map(|(entries, ops, overflow)| RealCase { entries, ops, overflow })
 }
 
 pub fn run(ctx: &Ctx) {
